@@ -48,6 +48,12 @@ CLAIMED['C03'] = dict(
     note='Coq kernel; no axioms; message objects are modelled as typed values, so "the attribute set cannot change" is structural in the model and is '
          'what the correspondence compares on the real object (vars() after every step); the three exception classes are one outcome in the correspondence, as the property allows.',
     technique='Coq proof (case analysis per type/attribute + induction over histories) + model/implementation correspondence', design='5/C03')
+CLAIMED['C19'] = dict(
+    text='Theorems: for ANY list of valid messages and both formats, read(write(ms)) is exactly the sysex messages of ms (any payload length, empty list, '
+         'no sysex); the text reader accepts ANY whitespace layout (every character Python\'s \\s matches) and either letter case and denotes the same bytes; '
+         'reading arbitrary bytes returns only valid sysex messages or raises ValueError. Built on the parser theorems (C04/C06) and the hex lemmas (C01).',
+    note='Coq kernel; no axioms; the file system is modelled as byte-exact storage (the harness uses real files in a scratch directory).',
+    technique='Coq proof (induction over message lists and layouts) + model/implementation correspondence on real files', design='5/C19')
 NOT_YET = {}
 ALL = ['C%02d' % i for i in range(1, 21)]
 
